@@ -29,7 +29,7 @@ open Grp
 
 /-- tactic: split a group into the 64 combinations of its six slots -/
 macro "slots " g:ident : tactic =>
-  `(tactic| (rcases $g:ident with ⟨a1, a2, a3, a4, a5, a6, b1, b2, b3, b4, b5, b6, b7, b8, b9⟩
+  `(tactic| (rcases $g:ident with ⟨a1, a2, a3, a4, a5, a6, b1, b2, b3, b4, b5, b6, b7, b8, b9, b10⟩
              cases a1 <;> cases a2 <;> cases a3 <;> cases a4 <;> cases a5 <;> cases a6))
 
 theorem Grp.ok_pullIfNeeded {g : Grp} (h : g.Ok) (n : Sid) : (g.pullIfNeeded n).1.Ok := by
@@ -65,18 +65,26 @@ theorem Grp.ok_startRtpPub {g : Grp} (h : g.Ok) (x : Sid) : (g.startRtpPub Code.
     have := slots_of_not_hasIn (g := g) (by simpa [Code.fixed] using hin)
     constructor <;> simp [addIn, inputs, hasIn, hasPub, hasPull, this]
 
-theorem Grp.ok_addRtmpPull {g : Grp} (h : g.Ok) (x : Sid) : (g.addRtmpPull x).1.Ok := by
+/-- a pull session is let in only when the group has no input (whatever else the guards ask for) -/
+theorem Grp.not_hasIn_of_pullRefusal {code : Code} {g : Grp} {x : Sid} (h : ¬ (g.pullRefusal code x).isSome = true) :
+    g.hasIn = false := by
+  unfold pullRefusal at h
+  cases hin : g.hasIn
+  · rfl
+  · simp [hin] at h
+
+theorem Grp.ok_addRtmpPull {g : Grp} (h : g.Ok) (code : Code) (x : Sid) : (g.addRtmpPull code x).1.Ok := by
   unfold addRtmpPull; split
   · exact h
   · rename_i hin
-    have := slots_of_not_hasIn (by simpa using hin)
+    have := slots_of_not_hasIn (not_hasIn_of_pullRefusal hin)
     constructor <;> simp [addIn, inputs, hasIn, hasPub, hasPull, this]
 
-theorem Grp.ok_addRtspPull {g : Grp} (h : g.Ok) (x : Sid) : (g.addRtspPull x).1.Ok := by
+theorem Grp.ok_addRtspPull {g : Grp} (h : g.Ok) (code : Code) (x : Sid) : (g.addRtspPull code x).1.Ok := by
   unfold addRtspPull; split
   · exact h
   · rename_i hin
-    have := slots_of_not_hasIn (by simpa using hin)
+    have := slots_of_not_hasIn (not_hasIn_of_pullRefusal hin)
     constructor <;> simp [addIn, inputs, hasIn, hasPub, hasPull, this]
 
 /-- `delIn` on a group whose single input is a publisher -/
@@ -123,19 +131,22 @@ theorem Grp.ok_delRtspSub {g : Grp} (h : g.Ok) (x : Sid) : (g.delRtspSub x).Ok :
 theorem Grp.ok_startPull {g : Grp} (h : g.Ok) (r : Bool) (retry : Option Nat) (n : Sid) : (g.startPull r retry n).1.Ok :=
   ok_pullIfNeeded (g := { g with apiEnable := true, pullIsRtsp := r, retryNum := retry }) ⟨h.one, h.pipe⟩ n
 
-theorem Grp.ok_stopPull' {g : Grp} (h : g.Ok) : g.stopPull'.1.Ok := by
+theorem Grp.ok_stopPull' {g : Grp} (h : g.Ok) (code : Code) : (g.stopPull' code).1.Ok := by
   unfold stopPull'; dsimp only; split
   · exact ⟨h.one, h.pipe⟩
-  · split <;> exact ⟨h.one, h.pipe⟩
+  · split
+    · exact ⟨h.one, h.pipe⟩
+    · split <;> exact ⟨h.one, h.pipe⟩
 
-theorem Grp.ok_stopPull {g : Grp} (h : g.Ok) : g.stopPull.1.Ok := ok_stopPull' ⟨h.one, h.pipe⟩
+theorem Grp.ok_stopPull {g : Grp} (h : g.Ok) (code : Code) : (g.stopPull code).1.Ok :=
+  ok_stopPull' (g := { g with apiEnable := false }) ⟨h.one, h.pipe⟩ code
 
-theorem Grp.ok_kick {g : Grp} (h : g.Ok) (k : KKind) (x : Sid) : (g.kick k x).1.Ok := by
+theorem Grp.ok_kick {g : Grp} (h : g.Ok) (code : Code) (k : KKind) (x : Sid) : (g.kick code k x).1.Ok := by
   unfold kick
   cases k <;> dsimp only
   · split <;> exact h
   · split
-    · exact ok_stopPull' ⟨h.one, h.pipe⟩
+    · exact ok_stopPull' (g := { g with apiEnable := false }) ⟨h.one, h.pipe⟩ code
     · exact h
   · split <;> exact h
   · split <;> exact h
